@@ -271,11 +271,44 @@ def run(chk: Check) -> None:
         break
     chk.ob("R15.2", "TypeNameError:is-EncodeError-CodecError", "EncodeError" in mro and "CodecError" in mro,
            tne.loc(), "TypeNameError must stay an EncodeError/CodecError - MRO %s" % mro, 1)
+    # parse trees come from the parser and from nowhere else: SubtypeTree(...) is constructed only
+    # inside _parse_type (a tree built directly from a name skips the grammar for that name)
+    for g_ in chk.repo.all_functions():
+        inside_parser = False
+        h_ = g_
+        while h_ is not None:
+            if h_.name == "_parse_type":
+                inside_parser = True
+            h_ = h_.outer
+        if inside_parser or g_.module.name not in ("serialization", "auxdata"):
+            continue
+        for c in walk_no_nested(g_.node):
+            if isinstance(c, ast.Call) and (dotted(c.func) or ("",))[-1] == "SubtypeTree":
+                chk.saw(g_)
+                chk.ob("R15.2", "%s:tree-built-outside-the-parser" % g_.qualname, False, g_.loc(c),
+                       "%s builds a parse tree itself (%s): a type name reaches the codecs without having "
+                       "been checked against the grammar" % (g_.qualname, unparse(c)[:50]), 2)
     for nm in ("encode", "decode"):
         m = ser.methods.get(nm)
         if m is None:
             continue
         chk.saw(m)
+        # the tree handed to the codecs is the parser's result for the given name, on every path
+        cfg_m = CFG(m.node)
+        tn_param = [p_ for p_ in m.param_names() if "type" in p_][:1]
+        parses = cfg_m.nodes_where(lambda y: isinstance(y, ast.Call) and isinstance(y.func, ast.Attribute)
+                                   and y.func.attr == "_parse_type" and len(y.args) == 1
+                                   and attr_path(y.args[0]) == tuple(tn_param))
+        uses = cfg_m.nodes_where(lambda y: isinstance(y, ast.Call) and isinstance(y.func, ast.Attribute)
+                                 and y.func.attr in ("_encode_tree", "_decode_tree"))
+        wit_ = None
+        for u_ in uses:
+            if u_ in parses:
+                continue
+            wit_ = wit_ or cfg_m.path_avoiding(cfg_m.entry, u_, parses)
+        chk.ob("R15.2", "Serialization.%s:parses-before-dispatch" % nm, bool(parses) and bool(uses) and wit_ is None,
+               m.loc(), "Serialization.%s reaches the codec dispatch on a path that did not parse its type "
+               "name (%s)" % (nm, " -> ".join(cfg_m.describe_path(wit_)) if wit_ else "no parse/dispatch call found"), 2)
         for c in walk_no_nested(m.node):
             if isinstance(c, ast.Call) and isinstance(c.func, ast.Attribute) and c.func.attr == "_parse_type":
                 cur = getattr(c, "_parent", None)
